@@ -101,9 +101,13 @@ func (p *Provider) start(ctx context.Context, ammoFile afero.File) error {
 	return nil
 }
 
+// ammoJSON decodes ammo lines. Numbers of the payload are kept as written (json.Number):
+// decoded into float64 an int64 field above 2^53 would reach the server altered.
+var ammoJSON = jsoniter.Config{EscapeHTML: true, UseNumber: true}.Froze()
+
 func decodeAmmo(jsonDoc []byte, am *ammo.Ammo) (*ammo.Ammo, error) {
 	var ammo ammo.Ammo
-	err := jsoniter.Unmarshal(jsonDoc, &ammo)
+	err := ammoJSON.Unmarshal(jsonDoc, &ammo)
 	if err != nil {
 		return am, errors.WithStack(err)
 	}
